@@ -89,7 +89,7 @@ def wf_namer(sc):
     return (lambda i: SPACED[i]) if sc.get("spaced") else S.s_name
 
 
-def run_scenario(sc):
+def run_scenario(sc, hashseed=0):
     import yaml
     res = dict(errors=[])
     with common.Scratch("c14") as d:
@@ -100,11 +100,11 @@ def run_scenario(sc):
         if sc["custom"]:
             (d / "map.yaml").write_text(yaml.safe_dump(sc["mapping"]))
             mc = ["-mc", str(d / "map.yaml")]
-        rc, tail = C.run_cli(["-o", str(d / "A"), "otel2puml", "-c", str(cfg)], d)
+        rc, tail = C.run_cli(["-o", str(d / "A"), "otel2puml", "-c", str(cfg)], d, hashseed=hashseed)
         res["A_rc"] = rc
         if rc:
             res["errors"].append("otel2puml: " + tail[-300:])
-        rc, tail = C.run_cli(["-o", str(d / "B"), "otel2pv", "-c", str(cfg), "-se"] + mc, d)
+        rc, tail = C.run_cli(["-o", str(d / "B"), "otel2pv", "-c", str(cfg), "-se"] + mc, d, hashseed=hashseed)
         res["B1_rc"] = rc
         if rc:
             res["errors"].append("otel2pv: " + tail[-300:])
@@ -116,7 +116,7 @@ def run_scenario(sc):
             stem = jd.name.replace(" ", "_")
             res["files"][stem] = [json.loads(f.read_text()) for f in sorted(jd.glob("*.json"))]
             res.setdefault("file_names", {})[stem] = sorted(p.name for p in jd.iterdir())
-            rc, tail = C.run_cli(["-o", str(d / "B2"), "pv2puml", "-fp", str(jd), "-jn", jd.name] + mc, d)
+            rc, tail = C.run_cli(["-o", str(d / "B2"), "pv2puml", "-fp", str(jd), "-jn", jd.name] + mc, d, hashseed=hashseed)
             if rc:
                 res["errors"].append(f"pv2puml {jd.name}: " + tail[-300:])
         res["B"] = C.read_pumls(d / "B2")
@@ -160,16 +160,68 @@ def run(out: common.Outcome, explore: int = 0) -> None:
     scs = [gen_scenario(rnd, k) for k in range(n)]
     with ThreadPoolExecutor(max_workers=common.NPROC) as ex:
         results = list(ex.map(run_scenario, scs))
+    first = judge(scs, results, okp)
+    problems, both_failed, n_files, n_pairs = first["problems"], first["both_failed"], first["n_files"], first["n_pairs"]
+    # The learner is not deterministic (uuid-keyed containers): on some data sets it succeeds in one process and fails, or
+    # learns another language, in the next - whichever route it is called from (that is C03's subject).  A difference between
+    # the routes therefore counts only if it is there in every one of four independent attempts on the same data set.
+    flaky = []
+    suspects = sorted({k for k, _, _ in problems})
+    stable = set(suspects)
+    for attempt in (1, 2, 3):
+        if not stable:
+            break
+        ks = sorted(stable)
+        with ThreadPoolExecutor(max_workers=common.NPROC) as ex:
+            again = list(ex.map(lambda k: run_scenario(scs[k], hashseed=attempt), ks))
+        j = judge([scs[k] for k in ks], again, okp)
+        bad_now = {ks[i] for i, _, _ in j["problems"]}
+        for k in ks:
+            if k not in bad_now:
+                stable.discard(k)
+                flaky.append(dict(scenario_index=k, first_attempt=[w for kk, w, _ in problems if kk == k][:2], passed_on_attempt=attempt + 1))
+    problems = [p for p in problems if p[0] in stable]
+    for k, why, info in problems[:4]:
+        r = results[k]
+        out.violation({"kind": "routes differ", "why": why + " (in each of 4 attempts)", "info": info, "scenario": scs[k],
+                       "otel2puml": r.get("A"), "otel2pv+pv2puml": r.get("B"), "errors": r.get("errors")})
+    finish(out, scs, results, problems, both_failed, n_files, n_pairs, flaky)
+
+
+def judge(scs, results, okp):
     pairs, where, problems = [], [], []
     names_checks, names_where = [], []
+    both_failed = []
     n_files = 0
     for k, (sc, r) in enumerate(zip(scs, results)):
+        skip = set()
         if r["errors"]:
-            # a failure is only consistent if BOTH routes fail for the workflow; report otherwise
-            problems.append((k, "cli-error", r["errors"][0][:200]))
-            continue
+            # The learner itself may fail on a workflow (a learner matter, not C14's).  That is consistent with C14 only if BOTH
+            # routes fail on that workflow with the same message; otel2puml stops there, so later workflows are not compared.
+            import re as _re
+            a_err = next((e for e in r["errors"] if e.startswith("otel2puml:")), None)
+            b_errs = {e.split(":")[0][len("pv2puml "):]: e for e in r["errors"] if e.startswith("pv2puml ")}
+            other = [e for e in r["errors"] if not e.startswith(("otel2puml:", "pv2puml "))]
+            w = None
+            if a_err:
+                m = _re.findall(r"Converting (.+?) to PUML\.\.\.", a_err)
+                w = m[-1] if m else None
+
+            def reason(e):
+                m2 = _re.search(r"An unexpected error occurred\s+(.*?)\s+Please raise an issue", e, _re.S)
+                return m2.group(1) if m2 else None
+            consistent = (not other and a_err is not None and w is not None and set(b_errs) == {w}
+                          and reason(a_err) is not None and reason(a_err) == reason(b_errs[w]))
+            if not consistent:
+                problems.append((k, "cli-error (not the same learner failure on the same workflow in both routes)", r["errors"][0][:200]))
+                continue
+            both_failed.append((k, w, reason(a_err)))
+            wstem = w.replace(" ", "_")
+            skip = {wstem} | {n for n in set(r["B"]) if n not in r["A"]}        # the failing workflow and those otel2puml never reached
         mem = in_memory_stream(sc)
         for name in sorted(set(r["A"]) | set(r["B"]) | set(mem)):
+            if name in skip:
+                continue
             if name not in r["A"] or name not in r["B"]:
                 problems.append((k, f"workflow {name} produced by one route only", ""))
                 continue
@@ -217,10 +269,10 @@ Eval vm_compute in (1%nat, idx (fun c => let ns := map fst (save_jobs nat (repea
             problems.append((k, f"{name}: one route emits a well-formed diagram, the other does not", ""))
         elif e["a_ok"] and (not e["same_events"] or e["e1"] or e["e2"]):
             problems.append((k, f"{name}: diagrams of the two routes are not language-equivalent", json.dumps(e)[:200]))
-    for k, why, info in problems[:4]:
-        r = results[k]
-        out.violation({"kind": "routes differ", "why": why, "info": info, "scenario": scs[k],
-                       "otel2puml": r.get("A"), "otel2pv+pv2puml": r.get("B"), "errors": r.get("errors")})
+    return dict(problems=problems, both_failed=both_failed, n_files=n_files, n_pairs=len(pairs))
+
+
+def finish(out, scs, results, problems, both_failed, n_files, n_pairs, flaky):
     out.coverage.update({
         "evaluations": len(scs), "distinct_nontrivial": len({json.dumps(s["events"], sort_keys=True) for s in scs}),
         "rule": "random multi-workflow trace sets (1-3 workflows, 3-8 traces each from a template call tree with optional / alternative / "
@@ -229,8 +281,10 @@ Eval vm_compute in (1%nat, idx (fun c => let ns := map fst (save_jobs nat (repea
                 "sequencing; a third of the scenarios use workflow names containing blanks; non-trivial = distinct data set",
         "samples": [dict(scenario={k: v for k, v in scs[0].items() if k != "events"}, n_events=len(scs[0]["events"]),
                          otel2puml=results[0].get("A"))],
-        "traces_validated_against_impl": n_files, "workflow_diagram_pairs": len(pairs), "saved_job_files": n_files,
+        "traces_validated_against_impl": n_files, "workflow_diagram_pairs": n_pairs, "saved_job_files": n_files,
+        "data_sets_on_which_the_learner_is_not_deterministic": flaky,
         "problems": len(problems),
+        "workflows_on_which_both_routes_hit_the_same_learner_error": [dict(scenario=k, workflow=w, error=e) for k, w, e in both_failed],
         "trusted_base": common.std_trusted_base([
             "diagram equivalence is certified per instance (bounded two-way language inclusion), not proved for the learner",
             "CLI driven with a jq_query mapping over one JSON file and an in-memory database",
